@@ -46,10 +46,13 @@ def main():
     # (2) probe
     maxn = 4 if not thorough else 6
     scen = [{"kind": "store", "id": "N%d" % n, "N": n} for n in range(0, maxn + 1)]
+    # the same object refilled with shrinking and growing windows (stale slots of an earlier, larger window must never be served)
+    scen += [{"kind": "store", "id": "hist1", "Ns": [3, 1, 2, 0, 2, 1] if not thorough else [4, 1, 3, 0, 2, 5, 2, 1]},
+             {"kind": "store", "id": "hist2", "Ns": [2, 1, 3, 2] if not thorough else [5, 3, 4, 2, 1, 0, 3]}]
     recs, crashed = pv.run_driver_resilient(exe, scen, timeout=900)
     for s in scen:
         if s["id"] in crashed:
-            c.violation("MatsubaraContainer4 crashed for N=%d" % s["N"], s, cls="store:crash")
+            c.violation("MatsubaraContainer4 crashed for N=%s" % (s.get("N", s.get("Ns")),), s, cls="store:crash")
     ev = [r for r in recs if r.get("e") in ("Fill", "Lookup")]
     pos, guard = 0, 0
     while pos < len(ev) and guard < 20:
@@ -82,6 +85,7 @@ def main():
     c.sample({"N": 2, "lookup": [1, -3, 1], "meaning": "store(n1,n2,n3) over a probe source must decode to (n1,n2,n3)"})
     for n in range(0, maxn + 1):
         c.nontriv("probe N=%d" % n)
+    c.nontriv("probe refill histories")
 
     # (3) real Vertex4
     # inequivalent sites / a polarised site: G14 and G23 (and G13, G24) must be different functions, otherwise exchanging them is invisible
@@ -96,7 +100,7 @@ def main():
         if models.nmodes(m) >= 3:
             quads = quads + [[0, 2, 2, 0], [0, 2, 0, 2], [2, 0, 0, 2]]
         m = dict(m)
-        m["queries"] = [{"q": "vertex", "beta": "3.0", "quads": quads, "windows": [0, 1, 2, 3] if thorough else [0, 1, 2], "triples": triples}]
+        m["queries"] = [{"q": "vertex", "beta": "3.0", "quads": quads, "windows": [2, 0, 3, 1, 2] if thorough else [2, 0, 1, 2], "triples": triples}]
         scen.append(m)
     recs, crashed = pv.run_driver_resilient(exe, scen, timeout=1500)
     for s in scen:
